@@ -6,6 +6,9 @@ from ..gen.tape import Tape, hex_tapes
 from . import c03
 
 
+DEFAULT_EXCLUDES = ('empty_sub_heading',)
+
+
 def make_filter(desc):
     kind, arg = desc
     if kind == 'contains':
@@ -48,12 +51,16 @@ def walk_toc(lst, depth, out, errs):
         return
     for item in lst.children:
         kids = list(item.children)
-        if not kids or type(kids[0]).__name__ != 'Paragraph':
+        if kids and type(kids[0]).__name__ == 'Paragraph':
+            text = ''.join(_entry_text(c) for c in kids[0].children)
+            rest = kids[1:]
+        elif not kids or type(kids[0]).__name__ == 'List':
+            text, rest = '', kids           # the entry of a heading without text
+        else:
             errs.append('entry at depth %d does not start with a paragraph: %r' % (depth, [type(k).__name__ for k in kids]))
             continue
-        text = ''.join(_entry_text(c) for c in kids[0].children)
         out.append((depth, text))
-        for k in kids[1:]:
+        for k in rest:
             if type(k).__name__ == 'List':
                 walk_toc(k, depth + 1, out, errs)
             else:
@@ -83,6 +90,8 @@ def check_case(case):
     if qual[0][0] != base or any(b[0] - a[0] > 1 for a, b in zip(qual, qual[1:])):
         return Out(skip='qualifying headings do not form an outline')
     want = [(lv - base, tx) for lv, tx in qual]
+    if any(d > 0 and tx.strip() == '' for d, tx in want) and 'empty_sub_heading' in (case.get('exclude') or DEFAULT_EXCLUDES):
+        return Out(skip='empty sub-heading (recorded finding F59)')
     nt = len(qual) >= 3 and len({lv for lv, _ in qual}) >= 2 and len(qual) < len(heads)
     labels = ('depth:%d' % depth, 'omit_title:%s' % omit, 'filters:%d' % len(filt), 'base:%d' % base)
     if len(qual) < len(heads):
